@@ -112,7 +112,15 @@ def set_copies(rng, n):
            (".set i = 0\n.set j = i\n.set i = i + 1\n .dw i, j\n.set j = I\n.set i = i + 1\n .dw i, j\n", ("OK", "0100000002000100"), "set-copy"),
            (".set v = nosuch\n nop\n", ("ERR",), "set-undefined-unused"),
            (".set v = 1\n.set v = nosuch\n .dw 2\n", ("ERR",), "set-undefined-unused"),
-           (".set v = (nosuch)\n nop\n", ("ERR",), "set-undefined-unused")]
+           (".set v = (nosuch)\n nop\n", ("ERR",), "set-undefined-unused"),
+           # a variable's FIRST assignment that mentions the variable itself names something undefined, directly or through a
+           # definition that is read late - it never reads as zero
+           (".set count = count + 1\n .dw count\n", ("ERR",), "set-first-self-reference"),
+           (".set count = COUNT + 1\n nop\n", ("ERR",), "set-first-self-reference"),
+           (".set Level = LEVEL\n .dw level\n", ("ERR",), "set-first-self-reference"),
+           (".equ next = index + 2\n.set index = next\n .dw index\n", ("ERR",), "set-first-self-reference"),
+           (" nop\n.set i = low(i)\n nop\n", ("ERR",), "set-first-self-reference"),
+           (".set i = 0\n.set i = i + 1\n.set I = i + 1\n .dw i\n", ("OK", "0200"), "set-self-reference-after-first")]
     names = ["x", "y", "z"]
     for _ in range(n):
         val, lines, code = {}, [], ""
